@@ -242,26 +242,25 @@ def packLifeStep (e : Handle) (isCreate : Bool) (acc : PackLife) (ck : Cmd × Na
       { acc with p := { acc.p with final := closedMask acc.w.deps (Mask.insert acc.p.final c), src := src },
                  srcIdx := srcIdx }
 
-/-- the second half of `applyCommandPack`: the single insertion / move, the stale instances, the supplied values -/
+/-- the second half of `applyCommandPack`: the single insertion / move, the stale instances, the supplied values.
+The entity's row afterwards (`locations_[entity.id()].index`) is the new last row of the target when it was inserted
+or moved, else the row it is in. -/
 def packFinishEvents (t : Nat) (e : Handle) (isCreate : Bool) (initial : Mask) (sh : Shared) (st : PackLife) :
     List Event :=
   if st.p.dead then st.evs else
   let p := st.p
   let supplied := Mask.ofList (p.src.map (·.1))
-  let (w, ti) := st.w.getArch p.final sh
+  let w := (st.w.getArch p.final sh).1
+  let ti := (st.w.getArch p.final sh).2
   let tm := (w.arch ti).mask
-  let moved : List Event × WM :=
-    if isCreate then (w.archInsertEvents ti supplied, (w.archInsert info ti e supplied).1)
+  let moved : List Event × Nat :=
+    if isCreate then (w.archInsertEvents ti supplied, (w.arch ti).rows.length)
     else
-      let l := w.locOf e
-      match l.arch with
-      | some pi => if pi = ti || initial == p.final then ([], w) else
-          (w.externalMoveEvents ti pi l.idx supplied,
-           match w.externalMove info ti e pi l.idx supplied with
-           | some r => r.1
-           | none => w)
-      | none => ([], w)
-  let idx := (moved.2.locOf e).idx
+      match (w.locOf e).arch with
+      | some pi => if pi = ti || initial == p.final then ([], (w.locOf e).idx) else
+          (w.externalMoveEvents ti pi (w.locOf e).idx supplied, (w.arch ti).rows.length)
+      | none => ([], (w.locOf e).idx)
+  let idx := moved.2
   let stale := (p.final.filter (fun c => p.replaced.contains c && initial.contains c)).filter
     (fun c => !(isCreate && supplied.contains c) && tm.contains c)
   let evs2 := stale.flatMap (fun c =>
@@ -292,7 +291,7 @@ def WM.packEvents (w : WM) (t off : Nat) (pack : List Cmd) : List Event :=
     | some (w1, initial0, sh) =>
       let initial := closedMask w1.deps initial0
       let body := if isCreate then rest.zipIdx (off + 1) else pack.zipIdx off
-      packFinishEvents info t e isCreate initial sh
+      packFinishEvents t e isCreate initial sh
         (body.foldl (packLifeStep info e isCreate) { w := w1, p := { final := initial } })
 
 /-- the packs of one buffer, in log order; returns the state after them -/
